@@ -180,6 +180,7 @@ CANARIES = [
     ('db-tx-always-writable', 'C06', 'src/db.rs', '        Tx::new(self, writable)', '        Tx::new(self, true)'),
     ('tx-buckets-hands-out-writable-handles', 'C06', 'src/tx.rs', '            freelist: tx.freelist.clone(),\n            writable: tx.lock.writable(),\n            _phantom: PhantomData,\n        };\n        bucket.cursor().to_buckets()', '            freelist: tx.freelist.clone(),\n            writable: true,\n            _phantom: PhantomData,\n        };\n        bucket.cursor().to_buckets()'),
     ('bucket-kv-pairs-lists-buckets-too', 'C08', 'src/bucket.rs', '        self.cursor().to_kv_pairs()', '        self.range::<std::ops::RangeFull>(..).to_kv_pairs()'),
+    ('buckets-next-hands-out-the-parents-handle', 'C07', 'src/cursor.rs', '                            freelist: self.freelist.clone(),\n                            inner: r,\n', '                            freelist: self.freelist.clone(),\n                            inner: self.bucket.clone(),\n'),
 ]
 
 
